@@ -325,29 +325,7 @@ public:
 	}
 	
 	~splinetable(){
-		if(ndim){
-			uint64_t ncoeffs=strides[0]*naxes[0];
-			for(uint32_t i=0; i<ndim; i++)
-				deallocate(knots[i]-order[i],nknots[i]+2*order[i]);
-			deallocate(knots,ndim);
-			deallocate(nknots,ndim);
-			deallocate(order,ndim);
-			if(extents){
-				deallocate(extents[0],2*ndim);
-				deallocate(extents,ndim);
-			}
-			if(periods)
-				deallocate(periods,ndim);
-			deallocate(coefficients,ncoeffs);
-			deallocate(naxes,ndim);
-			deallocate(strides,ndim);
-			for(uint32_t i=0; i<naux; i++){
-				deallocate(aux[i][0],strlen(&aux[i][0][0])+1);
-				deallocate(aux[i][1],strlen(&aux[i][1][0])+1);
-				deallocate(aux[i],2);
-			}
-			deallocate(aux,naux);
-		}
+		reset();
 	}
 	
 	splinetable& operator=(splinetable&& other){
@@ -819,6 +797,59 @@ private:
 	void ndsplineeval_multibasis_coreD_FixedOrder(const int *centers, const typename detail::simd_vector<Float>::type*** localbasis, typename detail::simd_vector<Float>::type* result) const;
 	template<typename Float, unsigned int ... Orders>
 	void ndsplineeval_multibasis_core_KnownOrder(const int *centers, const typename detail::simd_vector<Float>::type*** localbasis, typename detail::simd_vector<Float>::type* result) const;
+	
+	///Release all storage and return to the empty state.
+	///This must cope with objects on which an operation failed part way through
+	///construction, so every member is checked individually.
+	void reset(){
+		if(knots){
+			for(uint32_t i=0; i<ndim; i++){
+				if(knots[i])
+					deallocate(knots[i]-order[i],nknots[i]+2*order[i]);
+			}
+			deallocate(knots,ndim);
+		}
+		if(coefficients)
+			deallocate(coefficients,strides[0]*naxes[0]);
+		if(nknots)
+			deallocate(nknots,ndim);
+		if(order)
+			deallocate(order,ndim);
+		if(extents){
+			if(extents[0])
+				deallocate(extents[0],2*ndim);
+			deallocate(extents,ndim);
+		}
+		if(periods)
+			deallocate(periods,ndim);
+		if(naxes)
+			deallocate(naxes,ndim);
+		if(strides)
+			deallocate(strides,ndim);
+		if(aux){
+			for(uint32_t i=0; i<naux; i++){
+				if(!aux[i])
+					continue;
+				if(aux[i][0])
+					deallocate(aux[i][0],strlen(&aux[i][0][0])+1);
+				if(aux[i][1])
+					deallocate(aux[i][1],strlen(&aux[i][1][0])+1);
+				deallocate(aux[i],2);
+			}
+			deallocate(aux,naux);
+		}
+		ndim=0;
+		order=NULL;
+		knots=NULL;
+		nknots=NULL;
+		extents=NULL;
+		periods=NULL;
+		coefficients=NULL;
+		naxes=NULL;
+		strides=NULL;
+		naux=0;
+		aux=NULL;
+	}
 	
 	template<typename T>
 	typename allocator_traits::template rebind_traits<T>::pointer allocate(size_t n){
